@@ -1,5 +1,5 @@
 From Coq Require Import Extraction ExtrOcamlBasic NArith List.
-From RsddV Require Import Base.Bdd Model.IteStd Model.BddOps Model.BddProg Model.Wmc.
+From RsddV Require Import Base.Bdd Model.IteStd Model.BddOps Model.BddProg Model.Wmc Model.Compile.
 Extraction Language OCaml.
 Definition wmc_N (wlo whi : var -> N) (p : bdd) : N := wmc_m N N.add N.mul 0%N 1%N wlo whi p.
-Extraction "../ocaml/C18/model.ml" run_prog bstate_init bdd_eqb neg level_of var_at smooth_m wmc_N.
+Extraction "../ocaml/C18/model.ml" run_prog bstate_init bdd_eqb neg level_of var_at smooth_m wmc_N compile_e cnf_expr cst_empty den.
